@@ -192,11 +192,12 @@ def check_tcrdist(case, rec):
 @st.composite
 def tcr_case(draw, tier="quick"):
     n = draw(st.integers(1, 25 if tier == "thorough" else 16))
-    fam_a = draw(G.clonal_family(alpha=G.AA, max_size=n, min_size=n, founder_len=(6, 12), cdr3_like=True,
+    fam_a = draw(G.clonal_family(alpha=G.AA, max_size=n, min_size=n, founder_len=(2, 12), cdr3_like=True,
                                  allow_empty=False, max_edits=3))
-    fam_b = draw(G.clonal_family(alpha=G.AA, max_size=n, min_size=n, founder_len=(6, 12), cdr3_like=True,
+    fam_b = draw(G.clonal_family(alpha=G.AA, max_size=n, min_size=n, founder_len=(2, 12), cdr3_like=True,
                                  allow_empty=False, max_edits=3))
-    pad = lambda s: s if len(s) >= 8 else (s + "CASSQETQYF")[:8]  # noqa: E731
+    short_ok = draw(st.integers(0, 3)) == 0     # CDR3s of 4-7 residues: trimming leaves (almost) nothing to compare
+    pad = (lambda s: s if len(s) >= 4 else (s + "CAWF")[:4]) if short_ok else (lambda s: s if len(s) >= 8 else (s + "CASSQETQYF")[:8])  # noqa: E731
     nva = draw(st.integers(1, 4))
     nvb = draw(st.integers(1, 4))
     pool_a = draw(st.lists(st.integers(0, 102), min_size=nva, max_size=nva))
